@@ -48,8 +48,11 @@ def raw_values(draw, t, n):
     return np.array(vals, dtype=np_dtype(t)).tobytes()
 
 
+NAME_PAIRS = [("it's", 'a/b'), ('x/y', "c'"), ('', 'rate m/'), ('g', "x/'y"), ("'", '/'), ('Ω', 'volts/amps'), ('a b', '')]
+
+
 @st.composite
-def cases(draw, noop=False):
+def cases(draw, noop=False, names=False):
     t = draw(st.sampled_from(RAW_TYPES))
     graph = draw(SC.scale_graph(t, noop=noop, max_scales=5 if draw(st.integers(0, 7)) else 13))
     level = draw(st.sampled_from(['channel', 'channel', 'group', 'root']))
@@ -66,7 +69,9 @@ def cases(draw, noop=False):
     return {'type': t, 'graph': graph, 'level': level, 'other': other, 'status': status,
             'with_count': draw(st.booleans()), 'other_count': draw(st.booleans()), 'segs': segs,
             'order': draw(st.sampled_from(['parents_first', 'parents_first', 'channel_first', 'parents_in_last_segment'])),
-            'be': draw(st.integers(0, 3)) == 0}
+            'be': draw(st.integers(0, 3)) == 0,
+            # group / channel names with path syntax in them (only in C13's own jobs; other checks address the channel as g/c)
+            **({'names': list(draw(st.sampled_from(NAME_PAIRS)))} if names and draw(st.booleans()) else {})}
 
 
 LEVELS = ['channel', 'group', 'root']
@@ -75,7 +80,8 @@ LEVELS = ['channel', 'group', 'root']
 def build_file(case):
     """returns (file spec, expected graph or None)"""
     t = case['type']
-    p = make_path('g', 'c')
+    gname, cname = case.get('names') or ('g', 'c')
+    p = make_path(gname, cname)
     lvl = case['level']
     props = {'channel': [], 'group': [], 'root': []}
     status = case['status']
@@ -102,7 +108,7 @@ def build_file(case):
         n = len(chunks[0]) // tsize(t) if chunks else 0
         entries = [{'path': p, 'hdr': 'full', 'type': t, 'n': n, 'props': props['channel'] if si == 0 else []}]
         order = case.get('order', 'parents_first')
-        g_ent = {'path': make_path('g'), 'hdr': 'nodata', 'props': props['group']}
+        g_ent = {'path': make_path(gname), 'hdr': 'nodata', 'props': props['group']}
         r_ent = {'path': '/', 'hdr': 'nodata', 'props': props['root']}
         last = si == len(case['segs']) - 1
         if order == 'parents_first' and si == 0:
@@ -160,7 +166,10 @@ def check(case, rec):
     if not ok:
         return
     try:
-        che, chl = tf_e['g']['c'], tf_l['g']['c']
+        gname, cname = case.get('names') or ('g', 'c')
+        if case.get('names'):
+            rec.label('names_with_quotes_or_slashes')
+        che, chl = tf_e[gname][cname], tf_l[gname][cname]
         raw_before = le_bytes(che.raw_data)
         ok, full_e = rec.guard('scaled_read:eager', lambda: che[:])
         ok2, full_l = rec.guard('scaled_read:lazy', lambda: chl[:])
@@ -426,13 +435,13 @@ def long_cases(draw):
 
 def jobs(tier):
     if tier == 'quick':
-        return [Job('scale_graphs', 'hyp', lambda: cases(), n=4000),
+        return [Job('scale_graphs', 'hyp', lambda: cases(names=True), n=4000),
                 Job('long_channels', 'hyp', long_cases, n=160,
                     note='channels of 2^10 .. 2^17 (+-1) values through graphs of 1-3 scales'),
                 Job('daqmx_scaler_inputs', 'hyp', daqmx_graph_cases, n=800, check=check_daqmx_graph),
                 Job('sensor_scalings_leave_raw_data_alone', 'enum', sensor_cases(), exhaustive=True, check=check_sensor,
                     note='12 sensor scalings x 3 raw types x 2 lengths: repeatable, lazy==eager, raw untouched')]
-    return [Job('scale_graphs', 'hyp', lambda: cases(), n=120000),
+    return [Job('scale_graphs', 'hyp', lambda: cases(names=True), n=120000),
             Job('long_channels', 'hyp', long_cases, n=4000),
             Job('with_noop_scales', 'hyp', lambda: cases(noop=True), n=30000),
             Job('daqmx_scaler_inputs', 'hyp', daqmx_graph_cases, n=30000, check=check_daqmx_graph),
